@@ -35,6 +35,8 @@ pub struct Scen {
     /// open interest was written into the pools: only swaps / ticks from here on (pool_value then
     /// needs the borrowing model of the position engine)
     pub oi_mode: bool,
+    /// the virtual inventory was given its own (different) amounts at least once
+    pub vi_set: bool,
 }
 
 fn pick_fee(r: &mut Rng, u: u128, malformed: bool) -> (u128, u128, u128) {
@@ -68,7 +70,7 @@ pub fn new_scenario(r: &mut Rng, sid: String, prop: &str, out: &mut Vec<String>)
     c.swap_fee = pick_fee(r, u, malformed);
     if prop == "C06" && r.chance(1, 3) { c.swap_fee = (0, 0, c.swap_fee.2); }
     c.swap_impact = pick_impact(r, &c);
-    c.vi_swaps = r.chance(1, 4);
+    c.vi_swaps = r.chance(2, 5);
     if r.chance(1, 8) { c.max_pool_amount = if w == 64 { 5_000_000_000 } else { 5_000_000_000_000 }; }
     if r.chance(1, 10) { c.max_pool_value = if w == 64 { 500_000_000_000 } else { u * 5_000_000 }; }
     if r.chance(1, 10) { c.reserve = u / 2; }
@@ -80,7 +82,7 @@ pub fn new_scenario(r: &mut Rng, sid: String, prop: &str, out: &mut Vec<String>)
     let (base_l, base_s) = if w == 64 { (*r.pick(&[120u128, 1, 7, 2000, 65000]), *r.pick(&[1u128, 1, 1, 3])) }
         else { (*r.pick(&[10u128.pow(13), 12_345_678_901_234, 10u128.pow(11), 65_000 * 10u128.pow(12)]), *r.pick(&[10u128.pow(14), 10u128.pow(14), 99_990_000_000_000])) };
     let prices = P6 { imin: base_l, imax: base_l, lmin: base_l, lmax: base_l, smin: base_s, smax: base_s };
-    Scen { sid, cfg: c, base_l, base_s, prices, left: r.range(6, 22) as u32, pending: Vec::new(), oi_mode: false }
+    Scen { sid, cfg: c, base_l, base_s, prices, left: r.range(6, 22) as u32, pending: Vec::new(), oi_mode: false, vi_set: false }
 }
 
 fn walk(r: &mut Rng, s: &mut Scen) {
@@ -122,6 +124,8 @@ pub fn next_req(r: &mut Rng, s: &mut Scen, eng: &Engine, prop: &str) -> Option<S
     let (wd, ws, ww) = match prop { "C06" => (5, 2, 4), _ => (3, 7, 2) };
     let mut k = r.below(wd + ws + ww + 2);
     if empty && r.chance(4, 5) { k = 0; }
+    let force_vi = s.cfg.vi_swaps && !s.vi_set && !empty && !s.oi_mode;
+    if force_vi { k = wd + ws + ww; }
     if s.oi_mode { k = if r.chance(9, 10) { wd } else { wd + ws + ww }; }
     else if prop != "C06" && !empty && snap.supply > 0 && r.chance(1, 12) {
         // write open interest into the pools so that the reserve / max-pnl validations of swaps can bind
@@ -173,7 +177,7 @@ pub fn next_req(r: &mut Rng, s: &mut Scen, eng: &Engine, prop: &str) -> Option<S
         let amt = match r.below(10) { 0 => 0, 1 => 1, 2 => snap.supply, 3 => snap.supply.saturating_add(1), _ => frac(r, snap.supply.max(1)) };
         format!("mkt withdraw {sid} {amt} {}", p.fmt())
     } else {
-        match if s.oi_mode { 0 } else { r.below(6) } {
+        match if s.oi_mode { 0 } else if force_vi || (s.cfg.vi_swaps && !empty && r.chance(1, 3)) { 3 } else { r.below(6) } {
             0 => format!("mkt tick {sid} {}", r.range(0, 5000)),
             1 => format!("mkt dist {sid}"),
             2 => { // give the swap impact pool something to pay positive impact from (or starve it)
@@ -182,9 +186,21 @@ pub fn next_req(r: &mut Rng, s: &mut Scen, eng: &Engine, prop: &str) -> Option<S
                 format!("mkt setpool {sid} 1 {} {}", v(r, a, liq_l), v(r, b, liq_s))
             }
             3 if s.cfg.vi_swaps || r.chance(1, 5) => {
-                let sk = |r: &mut Rng, x: u128| match r.below(4) { 0 => x, 1 => x / 2, 2 => x.saturating_mul(2).min(max / 2), _ => x / 10 };
+                // virtual inventory: like the pool, more imbalanced the same way, or imbalanced the OTHER way
+                // (long and short VALUES exchanged) — the priced impact must be the worse of the two
                 s.cfg.vi_swaps = true;
-                format!("mkt setvi {sid} 0 {} {}", sk(r, liq_l), sk(r, liq_s))
+                s.vi_set = true;
+                let lv = big(liq_l) * big(p.lmin.max(1));
+                let sv = big(liq_s) * big(p.smin.max(1));
+                let to = |v: BigUint, pr: u128| -> u128 { (v / big(pr.max(1))).try_into().unwrap_or(max / 2).min(max / 2) };
+                let (vl, vs) = match r.below(6) {
+                    0 => (liq_l, liq_s),
+                    1 => (liq_l.saturating_mul(2).min(max / 2), liq_s / 2),
+                    2 => (liq_l / 2, liq_s.saturating_mul(2).min(max / 2)),
+                    3 | 4 => (to(sv.clone(), p.lmin), to(lv.clone(), p.smin)),            // values exchanged
+                    _ => (to(sv * big(3u128), p.lmin), to(lv / big(3u128), p.smin)),
+                };
+                format!("mkt setvi {sid} 0 {vl} {vs}")
             }
             4 => format!("mkt pv {sid} {} {} {}", r.below(2), r.below(2), p.fmt()),
             _ => format!("mkt tick {sid} 1"),
